@@ -6,6 +6,7 @@ import (
 	"go/types"
 	"regexp"
 	"strconv"
+	"strings"
 
 	"golang.org/x/tools/go/ssa"
 )
@@ -86,6 +87,12 @@ func classifyErr(op ssa.Value, seen map[ssa.Value]bool) exitKind {
 		}
 		return exitMaybe
 	case *ssa.Extract:
+		// the error of an "error factory" (a repository function or local closure all of whose exits fail)
+		if call, ok := x.Tuple.(*ssa.Call); ok {
+			if g := resolveCallee(&call.Call); g != nil && alwaysFails(g, 0) {
+				return exitFailure
+			}
+		}
 		// err extracted from a call and returned inside `if err != nil`: decided by dominating fact
 		if neverNilHere(x, seen) {
 			return exitFailure
@@ -93,6 +100,87 @@ func classifyErr(op ssa.Value, seen map[ssa.Value]bool) exitKind {
 		return exitMaybe
 	}
 	return exitMaybe
+}
+
+// resolveCallee: the repository function a call invokes: a static callee, or a closure value reached through a
+// captured variable / single-assignment local (`invalid := func(...) ...; return invalid(...)`).
+func resolveCallee(c *ssa.CallCommon) *ssa.Function {
+	if g := c.StaticCallee(); g != nil {
+		return g
+	}
+	return funcOfValue(c.Value, 0)
+}
+
+func funcOfValue(v ssa.Value, depth int) *ssa.Function {
+	if depth > 4 {
+		return nil
+	}
+	switch x := v.(type) {
+	case *ssa.Function:
+		return x
+	case *ssa.MakeClosure:
+		f, _ := x.Fn.(*ssa.Function)
+		return f
+	case *ssa.FreeVar:
+		fn := x.Parent()
+		par := fn.Parent()
+		if par == nil {
+			return nil
+		}
+		idx := -1
+		for i, fv := range fn.FreeVars {
+			if fv == x {
+				idx = i
+			}
+		}
+		for _, b := range par.Blocks {
+			for _, in := range b.Instrs {
+				if mc, ok := in.(*ssa.MakeClosure); ok && mc.Fn == ssa.Value(fn) && idx >= 0 && idx < len(mc.Bindings) {
+					return funcOfValue(mc.Bindings[idx], depth+1)
+				}
+			}
+		}
+	case *ssa.UnOp:
+		if x.Op == token.MUL {
+			return funcOfValue(x.X, depth+1)
+		}
+	case *ssa.Alloc:
+		var only ssa.Value
+		n := 0
+		for _, ref := range *x.Referrers() {
+			if st, ok := ref.(*ssa.Store); ok && st.Addr == ssa.Value(x) {
+				only = st.Val
+				n++
+			}
+		}
+		if n == 1 {
+			return funcOfValue(only, depth+1)
+		}
+	}
+	return nil
+}
+
+// alwaysFails: every return of g carries a non-nil error (g only builds errors).
+func alwaysFails(g *ssa.Function, depth int) bool {
+	if depth > 2 || g == nil || len(g.Blocks) == 0 {
+		return false
+	}
+	res := g.Signature.Results()
+	if res.Len() == 0 || !types.Identical(res.At(res.Len()-1).Type(), errorType) {
+		return false
+	}
+	n := 0
+	for _, b := range g.Blocks {
+		ret, ok := b.Instrs[len(b.Instrs)-1].(*ssa.Return)
+		if !ok {
+			continue
+		}
+		n++
+		if classifyErr(ret.Results[len(ret.Results)-1], map[ssa.Value]bool{}) != exitFailure {
+			return false
+		}
+	}
+	return n > 0
 }
 
 // neverNilHere is filled in by the caller through retGuardedNonNil (needs the return block).
@@ -776,24 +864,25 @@ func (p *Prog) callImpliesPol(fn *ssa.Function, v ssa.Value, re *regexp.Regexp, 
 	if call == nil {
 		return false
 	}
-	g := call.Call.StaticCallee()
+	g := resolveCallee(&call.Call)
 	if g == nil || g.Blocks == nil || !isProdPkgFn(g) || g == fn {
 		return false
 	}
-	r := p.R(fn)
-	bind := make([]string, len(call.Call.Args))
-	for i, a := range call.Call.Args {
-		bind[i] = r.E(a)
+	bind, fix0 := p.bindArgs(fn, call)
+	fix := fix0
+	if g.Parent() == fn {
+		// a local closure: its captured variables ("^x") are the enclosing function's own values
+		fix = func(s string) string { return strings.ReplaceAll(fix0(s), "^", "") }
 	}
 	gr := p.RBound(g, bind, 1)
-	subst := func(s string) string { return s }
+	subst := fix
 	avoid := map[edgeKey]bool{}
 	n := 0
 	for _, ef := range p.edgeFactsWith(g, gr) {
 		if ef.Fact == infeasible {
 			continue
 		}
-		if re.MatchString(ef.Fact) {
+		if re.MatchString(fix(ef.Fact)) {
 			avoid[ef.Key()] = true
 			n++
 		}
@@ -842,7 +931,7 @@ func (p *Prog) callImpliesPol(fn *ssa.Function, v ssa.Value, re *regexp.Regexp, 
 			} else if bt, isB := ev.Type().Underlying().(*types.Basic); isB && bt.Kind() == types.Bool {
 				f = posFact(gr, ev)
 			}
-			if f != "" && re.MatchString(f) {
+			if f != "" && re.MatchString(fix(f)) {
 				avoidEntry[entryKey{ph.Block().Preds[k], ph.Block()}] = true
 				n++
 			}
@@ -871,16 +960,12 @@ func (p *Prog) callImpliesFalse(fn *ssa.Function, v ssa.Value, re *regexp.Regexp
 	if bt, ok := res.At(0).Type().Underlying().(*types.Basic); !ok || bt.Kind() != types.Bool {
 		return false
 	}
-	r := p.R(fn)
-	bind := make([]string, len(call.Call.Args))
-	for i, a := range call.Call.Args {
-		bind[i] = r.E(a)
-	}
+	bind, fix := p.bindArgs(fn, call)
 	gr := p.RBound(g, bind, 1)
 	avoid := map[edgeKey]bool{}
 	n := 0
 	for _, ef := range p.edgeFactsWith(g, gr) {
-		if ef.Fact != infeasible && re.MatchString(ef.Fact) {
+		if ef.Fact != infeasible && re.MatchString(fix(ef.Fact)) {
 			avoid[ef.Key()] = true
 			n++
 		}
@@ -904,7 +989,7 @@ func (p *Prog) callImpliesFalse(fn *ssa.Function, v ssa.Value, re *regexp.Regexp
 					avoidEntry[entryKey{b.Preds[k], b}] = true
 				case isConstBool(ev, "false"):
 				default:
-					if re.MatchString(negateFact(gr, ev)) {
+					if re.MatchString(fix(negateFact(gr, ev))) {
 						avoidEntry[entryKey{b.Preds[k], b}] = true
 						n++
 					}
@@ -918,7 +1003,7 @@ func (p *Prog) callImpliesFalse(fn *ssa.Function, v ssa.Value, re *regexp.Regexp
 		case isConstBool(op, "false"):
 			targets = append(targets, ret)
 		default:
-			if re.MatchString(negateFact(gr, op)) {
+			if re.MatchString(fix(negateFact(gr, op))) {
 				n++
 			} else {
 				targets = append(targets, ret)
